@@ -113,7 +113,7 @@ theorem ownsKey_iff (s : Store) (hs : SInv s) (k : Bytes) :
 same pending set; the watermark starts over -/
 theorem restore_rel (r : Registry) (sp : Spec) (kgc start stop : Nat) (h : Rel r sp)
     (hsh : Shape r.store kgc start stop) (hstop : stop ≤ 65536) (maxCache : Nat) (ids : List String) :
-    Rel (Registry.new (Store.new r.store.db kgc start stop maxCache) ids) ⟨sp.pending, Wm.Ups.init ids, Wm.zeroTime⟩ := by
+    Rel (Registry.new (Store.new r.store.db kgc start stop maxCache) ids) ⟨sp.pending, Wm.Ups.init ids, Wm.regInit⟩ := by
   have hinv := sinv_new r.store.db h.inv.db kgc start stop maxCache hsh.hle hstop
   have hkeys : ∀ x, x ∈ (Store.new r.store.db kgc start stop maxCache).timerKeys ↔ x ∈ r.store.timerKeys := by
     intro x
@@ -158,7 +158,7 @@ theorem restore_rel_subrange (r : Registry) (sp : Spec) (kgc start stop start' s
     (hs1 : start ≤ start') (hs2 : start' ≤ stop') (hs3 : stop' ≤ stop) (maxCache : Nat) (ids : List String) :
     Rel (Registry.new (Store.new r.store.db kgc start' stop' maxCache) ids)
       ⟨sp.pending.filter (fun p => decide (start' ≤ KeySpace.keyGroup kgc p.1) && decide (KeySpace.keyGroup kgc p.1 < stop')),
-       Wm.Ups.init ids, Wm.zeroTime⟩ := by
+       Wm.Ups.init ids, Wm.regInit⟩ := by
   have hinv := sinv_new r.store.db h.inv.db kgc start' stop' maxCache hs2 (by omega)
   have hlen : (Store.new r.store.db kgc start' stop' maxCache).parts.length = stop' - start' := by simp [Store.new]
   have hst : (Store.new r.store.db kgc start' stop' maxCache).start = start' := rfl
